@@ -312,7 +312,10 @@ func c11r5(c *core.Ctx) {
 			})
 		}
 		scan(f, func(v ssa.Value) bool {
-			return core.AnySource(v, func(s ssa.Value) bool { b, ok := core.FieldLoad(s, tChar, "Perms"); return ok && b == ssa.Value(f.Params[0]) })
+			return core.AnySource(v, func(s ssa.Value) bool {
+				b, ok := core.FieldLoad(s, tChar, "Perms")
+				return ok && b == ssa.Value(f.Params[0])
+			})
 		}, 2)
 		// the predicate returns true only from that comparison's true branch: the helper returns constant true there
 		c.Check(ok, "predicate:"+pred, f.Pos(), pred+" scans c.Perms for \""+perm+"\"", pred+" does not test the receiver's Perms for \""+perm+"\"")
